@@ -45,6 +45,9 @@ USERS = {
     'Bob': ('Bobpass', ()),
     '\uff42ob': ('fwpass', ()),
     'ROOT': ('ROOTpass', ()),
+    # accounts whose password is the empty string / a single character
+    'empty': ('', ()),
+    'one': ('x', ()),
 }
 UIDX = {name: i for i, name in enumerate(USERS)}
 UNAME = {i: name for name, i in UIDX.items()}
@@ -170,9 +173,18 @@ def b64(b: bytes) -> bytes:
     return base64.b64encode(b)
 
 
+def full_line(raw: bytes) -> bytes:
+    """the bytes the server reads for a client line: lines that carry their own
+    terminator (bare LF) are sent as they are, CRLF is added otherwise"""
+    return raw if raw.endswith(b'\n') else raw + b'\r\n'
+
+
 def cline(raw: bytes, crlf: bool = True) -> dict:
+    """crlf=True: an IMAP continuation line (the model gets the whole line with
+    its terminator, b64decode sees it too); False: a ManageSieve string value."""
+    full = full_line(raw) if crlf else raw
     try:
-        dec = base64.b64decode(raw + (b'\r\n' if crlf else b''))
+        dec = base64.b64decode(full)
     except binascii.Error:
         dec = None
     utf8 = True
@@ -181,7 +193,48 @@ def cline(raw: bytes, crlf: bool = True) -> dict:
             dec.decode('utf-8')
         except UnicodeDecodeError:
             utf8 = False
-    return {'raw': raw, 'dec': dec, 'utf8': utf8}
+    return {'raw': full, 'dec': dec, 'utf8': utf8}
+
+
+def reference_creds(kind: str, lines: list[bytes], sieve_initial: bytes | None = None,
+                    sieve: bool = False):
+    """What a SASL PLAIN / LOGIN exchange presents, written from the mechanism
+    definitions (RFC 4616, draft LOGIN) and the protocols' cancel rule: a client
+    line consisting of "*" alone cancels.  base64 decoding is CPython's (the
+    same oracle the model gets).  None = nothing is presented."""
+    resps = []
+    if sieve and sieve_initial is not None:
+        resps.append(('init', sieve_initial))
+    resps += [('line', x) for x in lines]
+    need = 1 if kind == 'plain' else 2
+    vals = []
+    for how, x in resps[:need]:
+        if sieve:
+            body, full = x, x
+        else:
+            full = full_line(x)
+            body = full.rstrip(b'\r\n')
+        if how == 'line' and body == b'*':
+            return None
+        try:
+            vals.append(base64.b64decode(full))
+        except binascii.Error:
+            return None
+    if len(vals) < need:
+        return None
+    try:
+        if kind == 'plain':
+            parts = vals[0].split(b'\0')
+            if len(parts) != 3 or not parts[1]:
+                return None
+            for p_ in parts:
+                p_.decode('utf-8')
+            return (parts[1], parts[2], parts[0] or parts[1])
+        for v in vals:
+            v.decode('utf-8')
+        return (vals[0], vals[1], vals[0])
+    except UnicodeDecodeError:
+        return None
 
 
 class Attempt:
@@ -189,12 +242,16 @@ class Attempt:
     present (authc, secret, authz) as byte strings, None when the exchange is
     cancelled / malformed on purpose or the command is not a login."""
 
-    def __init__(self, kind, line, lines=(), creds=None, label=''):
+    def __init__(self, kind, line, lines=(), creds=None, label='', eol=b'\r\n'):
         self.kind = kind        # login | plain | sasl_login | other mech | starttls | probe | ...
         self.line = line
         self.lines = list(lines)
-        self.creds = creds
         self.label = label
+        self.eol = eol          # terminator of the command line itself
+        if kind in ('plain', 'sasl_login'):
+            # ground truth of what the exchange presents, whatever the generator meant
+            creds = reference_creds(kind, self.lines)
+        self.creds = creds
 
 
 def quote(b: bytes) -> bytes:
@@ -350,6 +407,28 @@ def gen_attempt(rng, tls_env: bool) -> Attempt:
     return Attempt('noop', b'NOOP', label='NOOP')
 
 
+CANCELS = [b'*\n', b'* ', b' *', b'*\r', b'* \n', b'**', b'*\r\n', b'*=']
+
+
+def vary(rng, a: Attempt) -> Attempt:
+    """Line-ending and cancel variants: bare LF after continuation lines and
+    after the command itself, '*' with spaces around it."""
+    lines = list(a.lines)
+    if a.kind in ('plain', 'sasl_login', 'mech'):
+        for i, ln in enumerate(lines):
+            r = rng.random()
+            if r < 0.25 and not ln.endswith(b'\n'):
+                lines[i] = ln + b'\n'
+            elif r < 0.32:
+                lines[i] = rng.choice(CANCELS)
+    eol = b'\r\n'
+    if b'{' not in a.line and rng.random() < 0.12:
+        eol = b'\n'
+    if lines == a.lines and eol == b'\r\n':
+        return a
+    return Attempt(a.kind, a.line, lines, a.creds, a.label + '~', eol)
+
+
 PROBE = Attempt('probe', b'LIST "" *', label='probe')
 
 
@@ -412,7 +491,8 @@ async def run_imap_sequence(rec: Recorder, E: Env, attempts: list[Attempt]) -> d
     who = None
     for i, a in enumerate(full):
         tag = b'q%d' % i
-        out, used = await run_exchange(conn, tag + b' ' + a.line, a.lines)
+        out, used = await run_exchange(conn, tag + b' ' + a.line, a.lines,
+                                       getattr(a, 'eol', b'\r\n'))
         cond, text = tagged(out, tag)
         calls = rec.log.take()
         snap = rec.snapshot()
@@ -577,7 +657,9 @@ def monitor_imap(ctx, E: Env, res: dict, replay: dict) -> None:
                   and pa.creds[2].decode('utf-8', 'replace') == now)
             if not ok:
                 ctx.failure('sound', f'connection acts as {now!r} after '
-                            f'{pa.label if pa else None} presenting {pa.creds if pa else None!r}',
+                            f'{(pa.label or pa.kind) if pa else None} '
+                            f'{pa.line[:40] if pa else b""!r} + lines {pa.lines[:2] if pa else []!r} '
+                            f'presenting {pa.creds if pa else None!r}',
                             rp, {'kind': 'authenticated_without_valid_credentials',
                                  'as': now})
         elif now is not None and who is not None and now != who:
@@ -600,10 +682,15 @@ def monitor_imap(ctx, E: Env, res: dict, replay: dict) -> None:
 
 # ------------------------------------------------------------- ManageSieve
 class SAttempt:
-    def __init__(self, kind, line, lines=(), creds=None, initial=None, mech=b'', label=''):
+    def __init__(self, kind, line, lines=(), creds=None, initial=None, mech=b'', label='',
+                 eol=b'\r\n'):
         self.kind = kind
         self.line = line
         self.lines = list(lines)     # raw values (sent quoted)
+        self.eol = eol               # terminator of every line of this command
+        if kind == 'auth' and mech.upper() in (b'PLAIN', b'LOGIN'):
+            creds = reference_creds('plain' if mech.upper() == b'PLAIN' else 'sasl_login',
+                                    self.lines, initial, sieve=True)
         self.creds = creds
         self.initial = initial
         self.mech = mech
@@ -717,10 +804,10 @@ async def run_sieve_sequence(rec: Recorder, E: Env, attempts: list[SAttempt]) ->
     greet = {'out': g, 'closed': conn.closed, **_sieve_caps(g)}
     steps = []
     for a in attempts:
-        out = await conn.send(a.line + b'\r\n')
+        out = await conn.send(a.line + a.eol)
         used = 0
         while _sieve_done(out) is None and not conn.closed and used < len(a.lines):
-            out += await conn.send(quote(a.lines[used]) + b'\r\n')
+            out += await conn.send(quote(a.lines[used]) + a.eol)
             used += 1
         cond = _sieve_done(out)
         caps = {'owner': None, 'mechs': False, 'offer_tls': False}
@@ -872,6 +959,19 @@ def fixed_sequences() -> list[tuple[str, list[Attempt]]]:
             (envname, [login(b'Bob', b'bobpass'), login(b'bob', b'Bobpass'), login(FW, b'bobpass'),
                        login(b'Bob', b'Bobpass')]),
             (envname, [plain(b'', FW, b'fwpass')]),
+            # accounts with an empty / one-character password and cancelled exchanges
+            (envname, [login(b'empty', b''), ]),
+            (envname, [login(b'empty', b'x'), login(b'one', b''), login(b'one', b'x')]),
+            (envname, [Attempt('sasl_login', b'AUTHENTICATE LOGIN', [b64(b'empty'), b'*\n'])]),
+            (envname, [Attempt('sasl_login', b'AUTHENTICATE LOGIN', [b64(b'empty') + b'\n', b'*'])]),
+            (envname, [Attempt('sasl_login', b'AUTHENTICATE LOGIN', [b64(b'empty'), b'*\r'])]),
+            (envname, [Attempt('sasl_login', b'AUTHENTICATE LOGIN', [b64(b'empty'), b'* ']),
+                       ]),
+            (envname, [Attempt('sasl_login', b'AUTHENTICATE LOGIN', [b'*\n', b'*\n']),
+                       Attempt('plain', P, [b'*\n']), Attempt('plain', P, [b' *']),
+                       Attempt('plain', P, [b64(b'\0empty\0') + b'\n'])]),
+            (envname, [Attempt('sasl_login', b'AUTHENTICATE LOGIN', [b64(b'one'), b64(b'x') + b'\n'],
+                               eol=b'\n')]),
             (envname, [Attempt('sasl_login', b'AUTHENTICATE LOGIN', [b64(b'bob'), b'*']),
                        Attempt('sasl_login', b'AUTHENTICATE LOGIN', [b'*', b'x']),
                        Attempt('sasl_login', b'AUTHENTICATE LOGIN', [b64(b'bob'), b64(b'nope')],
@@ -931,15 +1031,34 @@ def run(ctx) -> None:
                     envname = rng.choices(names, weights)[0]
                     E = envs[envname]
                     n = rng.randint(1, 7)
-                    plan.append((envname, [gen_attempt(rng, E.tls) for _ in range(n)]))
+                    plan.append((envname, [vary(rng, gen_attempt(rng, E.tls)) for _ in range(n)]))
                 for envname, attempts in plan:
                     E = envs[envname]
                     res = await asyncio.wait_for(run_imap_sequence(rec, E, attempts), 120)
                     imap_runs.append((E, attempts, res))
+                for envname in ('dict_plain', 'maildir'):
+                    for lines, eol in (([b64(b'empty'), b'*'], b'\n'), ([b64(b'empty'), b'* '], b'\r\n'),
+                                       ([b64(b'empty'), b''], b'\n'), ([b'*', b'*'], b'\n'),
+                                       ([b64(b'one'), b64(b'x')], b'\n')):
+                        sa = SAttempt('auth', b'AUTHENTICATE "LOGIN"', lines, None, None, b'LOGIN',
+                                      'SASL-LOGIN-fixed', eol)
+                        E = envs[envname]
+                        res = await asyncio.wait_for(run_sieve_sequence(rec, E, [sa]), 120)
+                        sieve_runs.append((E, [sa], res))
                 for _ in range(n_sieve):
                     envname = rng.choices(names, weights)[0]
                     E = envs[envname]
                     attempts = [gen_sattempt(rng) for _ in range(rng.randint(1, 7))]
+                    for sa in attempts:
+                        if rng.random() < 0.2 and b'{' not in sa.line:
+                            sa.eol = b'\n'
+                        if sa.kind == 'auth' and sa.lines and rng.random() < 0.1:
+                            k = rng.randrange(len(sa.lines))
+                            sa.lines[k] = rng.choice([b'* ', b' *', b'**', b'*'])
+                            sa.creds = reference_creds(
+                                'plain' if sa.mech.upper() == b'PLAIN' else 'sasl_login',
+                                sa.lines, sa.initial, sieve=True) \
+                                if sa.mech.upper() in (b'PLAIN', b'LOGIN') else None
                     res = await asyncio.wait_for(run_sieve_sequence(rec, E, attempts), 120)
                     sieve_runs.append((E, attempts, res))
         finally:
